@@ -1,6 +1,6 @@
 // C20 driver (real threads, real library): tasks suspend themselves; the suspend point is resumed from the callback itself,
 // from a foreign helper thread after a seeded delay, or from another task; every suspension must continue exactly once and
-// the enclosing wait must not return before.   input: seed P ntasks mode(0 mixed,1 in-callback,2 foreign,3 task) nested(0/1)
+// the enclosing wait must not return before.   input: seed P ntasks mode(0 mixed,1 in-callback,2 foreign,3 task,4 foreign after 1-40 ms) nested(0/1)
 #include "common.h"
 #include <random>
 #include <mutex>
@@ -17,6 +17,7 @@ struct Helper {   // foreign thread that resumes suspend points after a delay
     Helper() { th = std::thread([this] {
         for (;;) { std::unique_lock<std::mutex> l(m); cv.wait(l, [this] { return stop || !q.empty(); }); if (q.empty()) return;
             auto it = q.front(); q.pop(); l.unlock();
+            if (it.second & 0x40000000u) std::this_thread::sleep_for(std::chrono::milliseconds(it.second & 0xffff)); else
             for (volatile unsigned i = 0; i < it.second; ++i) {}
             tbb::task::resume(it.first); } }); }
     void post(tbb::task::suspend_point sp, unsigned delay) { { std::lock_guard<std::mutex> l(m); q.push({sp, delay}); } cv.notify_one(); }
@@ -40,6 +41,7 @@ int main() {
                     std::mt19937 r(seed * 131 + i);
                     auto one = [&](int id) {
                         int how = mode ? mode : 1 + r() % 3; unsigned delay = r() % 3 == 0 ? 0 : r() % 20000;
+                        if (how == 4) { how = 2; delay = 0x40000000u | (1 + r() % 40); }   // late resume: the suspending thread has run out of work and sleeps
                         if (++running[id] != 1) two_threads++;
                         tbb::task::suspend([&](tbb::task::suspend_point sp) {
                             --running[id];
